@@ -38,8 +38,8 @@ type Event struct {
 	Template string    // spawn
 	Msg      string    // assert / panic message
 	Pos      string
-	Plain    bool // load/store: non-atomic access (data-race candidate)
-	Width    int  // bit width of the cell / payload
+	Plain    bool    // load/store: non-atomic access (data-race candidate)
+	Width    int     // bit width of the cell / payload
 	Post     []Event // ghost-cell updates fused into this event (applied atomically after it)
 }
 
@@ -86,15 +86,15 @@ type chanCodec struct {
 
 // treeConc is the concHandler used during extraction.
 type treeConc struct {
-	i       *interpreter
-	path    *ThreadPath
-	spawns  []spawnRec
-	names   map[interface{}]string // object identity -> stable name
-	objs    map[string]*ObjInfo
-	counter map[string]int
-	codecs  map[*channel]chanCodec
-	shared  map[*value]string
-	ghost   map[string]*value
+	i         *interpreter
+	path      *ThreadPath
+	spawns    []spawnRec
+	names     map[interface{}]string // object identity -> stable name
+	objs      map[string]*ObjInfo
+	counter   map[string]int
+	codecs    map[*channel]chanCodec
+	shared    map[*value]string
+	ghost     map[string]*value
 	maxEvents int
 	maxRecv   int
 	// automatic detection of shared memory: pre = slots that existed when the
